@@ -39,7 +39,7 @@ def run_model(insts):
         elif p[0] == "CHECKREPLAY": cur["checkreplay"] = int(p[1])
         elif p[0] == "EXTRAOK": cur["extraok"] = int(p[1])
         elif p[0] == "SCHEDOK": cur["schedok"] = int(p[1])
-        elif p[0] in ("NMONO", "TTMATCH", "CHECKMONO", "TTCHECK"): cur[p[0].lower()] = int(p[1])
+        elif p[0] in ("NMONO", "TTMATCH", "CHECKMONO", "TTCHECK", "TMPLOK", "SUPCOV"): cur[p[0].lower()] = int(p[1])
         elif p[0] == "CHECKSYM_SMALLER": cur["checksym_smaller"] = int(p[1])
         elif p[0] == "NEED": cur["need"][cn[int(p[1])]] = int(p[2])
         elif p[0] == "WIN":
